@@ -102,6 +102,13 @@ func c01Stickiness(r *core.Run, s *sim.Sim, sig string) {
 		off := s.Rng.Intn(len(ys) - 40)
 		ys, coins = ys[off:off+40], coins[off:off+40]
 	}
+	for _, c := range coins {
+		if c.State == sim.Pending {
+			if mq := s.MeltQuoteByID(c.Quote); mq != nil {
+				s.AdoptTruth(mq) // the check resolves pending melts whose outcome Lightning already knows
+			}
+		}
+	}
 	st, err := s.E.CheckState(ys)
 	if err != nil {
 		r.Observe("checkstate-error", err.Error())
